@@ -153,8 +153,21 @@ def m_setitem(o):
         o[_first_index(o)] = 0.25
 
 
+def m_setitem_huge(o):
+    # values that take the library's Python-integer path (scaled code needs 64+ bits / magnitude >= 2**64)
+    idx = () if np.ndim(o.val) == 0 else _first_index(o)
+    o[idx] = 2 ** 62
+
+
+def m_setitem_huge_float(o):
+    idx = () if np.ndim(o.val) == 0 else _first_index(o)
+    o[idx] = -1e30
+
+
 MUTS = [
     ('write', lambda o: o.set_val(_shapeval(o, 0.5))),
+    ('setitem_huge', m_setitem_huge),
+    ('setitem_huge_float', m_setitem_huge_float),
     ('call', lambda o: o(_shapeval(o, -0.5))),
     ('setitem', m_setitem),
     ('raw', lambda o: o.set_val(_shapeval(o, 3).astype(int) if np.ndim(o.val) else 3, raw=True)),
@@ -168,7 +181,7 @@ MUTS = [
     ('resize', lambda o: o.resize(n_word=o.n_word + 3, n_frac=o.n_frac + 1)),
     ('cb_append', lambda o: o.callbacks.append(Recorder())),
 ]
-VALUE_MUTS = ('write', 'call', 'setitem', 'raw', 'flag', 'resize')
+VALUE_MUTS = ('write', 'call', 'setitem', 'setitem_huge', 'setitem_huge_float', 'raw', 'flag', 'resize')
 
 
 def build_chain(root, chain):
@@ -286,7 +299,7 @@ def check_chain(acc, root, chain):
                               % (root, chain, mname, target, k, diff, [before[k][f] for f in diff][:2], [after[k][f] for f in diff][:2]),
                               {'part': 'A', 'deriv': chain[-1] if chain else None, 'field': diff[0]})
             # write-through is REQUIRED for an indexed write through a 2-d/1-d view
-            if mname == 'setitem' and target in views and target == new and isinstance(heap[target].val, np.ndarray) and np.ndim(heap[target].val) >= 1:
+            if mname in ('setitem', 'setitem_huge', 'setitem_huge_float') and target in views and target == new and isinstance(heap[target].val, np.ndarray) and np.ndim(heap[target].val) >= 1:
                 par = views[target]
                 if after[par]['codes'] == before[par]['codes'] and after[target]['codes'] != before[target]['codes']:
                     acc.violation('write_through', case, 'root %s chain %s: x[i][j]=v through the view did not reach its parent' % (root, chain),
